@@ -12,9 +12,12 @@ Open Scope Z_scope.
 Record attr_meta := mkAttr {
   am_default : option Q; am_hig : bool; am_stackable : bool; am_max : option Z }.
 
+(* m_py: 0 = dogma modifier; otherwise a python modifier (eve_obj/custom), whose
+   operator / value are computed from the world instead of read from m_src_attr:
+   1 = PropulsionModuleVelocityBoostModifier, 2 = AncillaryRepAmountModifier *)
 Record modifier := mkMod {
   m_filter : Z; m_extra : option Z; m_domain : Z; m_tgt_attr : Z;
-  m_op : Z; m_aggmode : Z; m_aggkey : option Z; m_src_attr : Z }.
+  m_op : Z; m_aggmode : Z; m_aggkey : option Z; m_src_attr : Z; m_py : Z }.
 
 Record effect := mkEffect {
   e_cat : Z;                       (* EffectCategoryId code *)
@@ -240,10 +243,12 @@ Record derived := mkDerived {
   d_next : nat;                    (* fresh ids for warfare-buff modifiers *)
   d_pen : list Q;                  (* PENALTY_BASE ** (pos ** 2), pos = 0.. *)
   d_err : option ierr;
-  d_trace : list (nat * msg) }.    (* messages delivered during the current step, newest first *)
+  d_trace : list (nat * msg);      (* messages delivered during the current step, newest first *)
+  d_pysubs : list (nat * spec) }.  (* per solar system: affector specs with python modifiers that are
+                                      subscribed to their revision messages (__subscribed_affectors) *)
 
 Definition empty_world : world := mkWorld [] [] [] [] [] 1000%nat None.
-Definition empty_derived (pen : list Q) : derived := mkDerived [] [] 1000%nat pen None [].
+Definition empty_derived (pen : list Q) : derived := mkDerived [] [] 1000%nat pen None [] [].
 
 (* ------------------------------------------------------------------ *)
 (* accessors / updaters                                                *)
@@ -270,13 +275,14 @@ Definition clear_err (w : world) : world :=
 Definition dfail (d : derived) (e : ierr) : derived :=
   match d_err d with
   | Some _ => d
-  | None => mkDerived (d_caches d) (d_calcs d) (d_next d) (d_pen d) (Some e) (d_trace d)
+  | None => mkDerived (d_caches d) (d_calcs d) (d_next d) (d_pen d) (Some e) (d_trace d) (d_pysubs d)
   end.
-Definition d_set_caches (d : derived) v := mkDerived v (d_calcs d) (d_next d) (d_pen d) (d_err d) (d_trace d).
-Definition d_set_calcs (d : derived) v := mkDerived (d_caches d) v (d_next d) (d_pen d) (d_err d) (d_trace d).
-Definition d_set_next (d : derived) v := mkDerived (d_caches d) (d_calcs d) v (d_pen d) (d_err d) (d_trace d).
-Definition d_set_trace (d : derived) v := mkDerived (d_caches d) (d_calcs d) (d_next d) (d_pen d) (d_err d) v.
-Definition d_clear (d : derived) := mkDerived (d_caches d) (d_calcs d) (d_next d) (d_pen d) None [].
+Definition d_set_caches (d : derived) v := mkDerived v (d_calcs d) (d_next d) (d_pen d) (d_err d) (d_trace d) (d_pysubs d).
+Definition d_set_calcs (d : derived) v := mkDerived (d_caches d) v (d_next d) (d_pen d) (d_err d) (d_trace d) (d_pysubs d).
+Definition d_set_next (d : derived) v := mkDerived (d_caches d) (d_calcs d) v (d_pen d) (d_err d) (d_trace d) (d_pysubs d).
+Definition d_set_trace (d : derived) v := mkDerived (d_caches d) (d_calcs d) (d_next d) (d_pen d) (d_err d) v (d_pysubs d).
+Definition d_set_pysubs (d : derived) v := mkDerived (d_caches d) (d_calcs d) (d_next d) (d_pen d) (d_err d) (d_trace d) v.
+Definition d_clear (d : derived) := mkDerived (d_caches d) (d_calcs d) (d_next d) (d_pen d) None [] (d_pysubs d).
 Definition empty_icache : icache := mkICache [] [].
 Definition get_icache (d : derived) (i : nat) : icache :=
   match al_get neqb (d_caches d) i with Some c => c | None => empty_icache end.
